@@ -3,6 +3,67 @@
 from gen_data import emit, need, blit
 
 
+def canon_regex(pattern):
+    """Canonical structural form of a regular expression (CPython's own parse tree, normalised): spellings that CPython parses to
+    the same structure - [^\\s] / \\S, [|] / \\|, reordered character sets, reordered prefix-free literal alternatives - get
+    the same text. Anything the walker does not know is rendered by repr, i.e. stays pinned as it is."""
+    import re
+    P = re._parser
+    C = re._constants
+
+    def seq(sub):
+        out = []
+        for op, av in sub:
+            x = node(op, av)
+            if out and x[0] == 'lit' and out[-1][0] == 'lit':
+                out[-1] = ('lit', out[-1][1] + x[1])
+            else:
+                out.append(x)
+        return ('seq', tuple(out)) if len(out) != 1 else out[0]
+
+    def setitem(op, av):
+        if op is C.LITERAL:
+            return ('c', chr(av))
+        if op is C.RANGE:
+            return ('r', chr(av[0]), chr(av[1]))
+        if op is C.CATEGORY:
+            return ('cat', str(av))
+        return ('?', repr((op, av)))
+
+    def node(op, av):
+        if op is C.LITERAL:
+            return ('lit', chr(av))
+        if op is C.NOT_LITERAL:
+            return ('set', True, (('c', chr(av)),))
+        if op is C.IN:
+            neg = bool(av) and av[0][0] is C.NEGATE
+            items = tuple(sorted(setitem(o, a) for o, a in av if o is not C.NEGATE))
+            if items == (('cat', 'CATEGORY_SPACE'),):
+                return ('space', not neg)
+            if items == (('cat', 'CATEGORY_NOT_SPACE'),):
+                return ('space', neg)
+            if len(items) == 1 and items[0][0] == 'c' and not neg:
+                return ('lit', items[0][1])
+            # a negated set mentioning \s: record it as a set item so that [^,|;\s] keeps one spelling
+            return ('set', neg, items)
+        if op in (C.MAX_REPEAT, C.MIN_REPEAT):
+            lo, hi, sub = av
+            return ('rep', 'greedy' if op is C.MAX_REPEAT else 'lazy', lo, 'inf' if hi is C.MAXREPEAT else hi, seq(sub))
+        if op is C.SUBPATTERN:
+            gid, addf, delf, sub = av
+            need(not addf and not delf, 'inline flags in the id pattern')
+            return ('group', gid, seq(sub)) if gid is not None else seq(sub)
+        if op is C.BRANCH:
+            alts = [seq(a) for a in av[1]]
+            lits = [a[1] for a in alts if a[0] == 'lit']
+            if len(lits) == len(alts) and not any(x != y and y.startswith(x) for x in lits for y in lits):
+                alts = sorted(alts)      # at most one of prefix-free literals matches at a position: order is irrelevant
+            return ('alt', tuple(alts))
+        return ('?', repr((op, av)))
+    need(isinstance(pattern, str), 'pattern is not a str')
+    return repr(seq(P.parse(pattern)))
+
+
 def gen_c01_io():
     import sugar._io.fasta as FA
     import sugar._io.stockholm as ST
@@ -13,6 +74,8 @@ def gen_c01_io():
         v = getattr(FA, nm, None)
         need(isinstance(v, str), 'fasta.%s is not a str' % nm)
         body.append('Definition FASTA_%s_TEXT : str := %s.' % (nm, blit(v)))
+    # structural form of the id pattern: what the hand-written matcher of the model is pinned to (C01_idpattern_pinned)
+    body.append('Definition FASTA_IDPATTERN_CANON : str := %s.' % blit(canon_regex(FA.IDPATTERN)))
     need(isinstance(SJ.COMMENT, str), 'sjson.COMMENT is not a str')
     body.append('Definition SJSON_COMMENT : str := %s.' % blit(SJ.COMMENT))
     for fmt, mod in (('fasta', FA), ('stockholm', ST), ('sjson', SJ), ('gff', GF)):
